@@ -227,7 +227,7 @@ func genBase() *rapid.Generator[string] {
 }
 
 func TestGenerated(t *testing.T) {
-	rt.Check(t, 20000, 2000000, func(t *rapid.T) {
+	rt.Check(t, 20000, 8000000, func(t *rapid.T) {
 		base := genBase().Draw(t, "base")
 		u := genURL().Draw(t, "url")
 		if msg := check(base, u); msg != "" {
